@@ -4,7 +4,7 @@
    exactly once).  In a stable cluster with ReplicaCount <= 2 every partition lists one primary owner and at
    most one replica owner. *)
 From Coq Require Import List NArith Bool Arith.
-Require Import Olric.Model.Iter Olric.Proofs.IterProofs.
+Require Import Olric.Model.Iter Olric.Proofs.IterProofs Olric.Model.Codec Olric.Model.Store Olric.Proofs.ScanProofs Olric.Proofs.IterStoreProofs.
 Import ListNotations.
 
 (* one partition: for every page sequence of the primary and of the replica owner the iterator terminates
@@ -35,3 +35,22 @@ Proof. repeat split; cbn; auto. Qed.
    machine as coded can spin without the periodic re-fetch of the routing table *)
 Theorem C12_two_replica_owners_need_refetch : forall fuel, iter_part fuel spin_part = None.
 Proof. exact two_replica_owners_spin. Qed.
+
+(* ---- end to end: the iterator over the SCAN pages of the storage engine ----
+   A partition of a stable cluster: the primary owner holds store sP, the replica owner (if any) store sR, both
+   satisfying the structural invariant swf3 (C12_invariant_preserved); pgP / pgR are the pages of one complete
+   DM.SCAN iteration (s_scan_pages = s_scan_all with the page boundaries kept) for any COUNT >= 1 and any matcher.
+   The client iterator then terminates and hands out exactly the keys of the present matching records of either store,
+   each once. *)
+Theorem C12_end_to_end : forall (enc : list Codec.byte -> key) m count a sP fuelP pgP
+    (rb : option (owner * Store.store)) fuelR pgR fuel,
+  ScanProofs.swf3 sP -> (0 < Store.ssize sP)%N -> (1 <= count)%nat ->
+  IterStoreProofs.s_scan_pages m count fuelP 0 sP = Some pgP ->
+  (forall b sR, rb = Some (b, sR) ->
+     ScanProofs.swf3 sR /\ (0 < Store.ssize sR)%N /\ IterStoreProofs.s_scan_pages m count fuelR 0 sR = Some pgR) ->
+  let p := IterStoreProofs.store_part enc a sP pgP (match rb with Some (b, _) => Some (b, pgR) | None => None end) in
+  part_fuel p <= fuel ->
+  exists ys, iter_part fuel p = Some ys /\ NoDup ys /\
+             forall k, In k ys <-> IterStoreProofs.present enc m sP k \/
+                                   (exists b sR, rb = Some (b, sR) /\ IterStoreProofs.present enc m sR k).
+Proof. exact IterStoreProofs.iterate_stores. Qed.
